@@ -387,6 +387,38 @@ def r2b_field_to_field(ctx):
         r.anchor_missing("per-log struct projections (e.g. SyncCompare::maybe_conflict)")
 
 
+def r4b_conflict_reported_as_unknown(ctx):
+    """A refused patch must surface as a conflict: the only verdict the client
+    treats as one is Comparison::Unknown (maybe_conflict)."""
+    ws = ctx.ws
+    r = ctx.rule("C04-R4b", "a CheckedPatch::Conflict is reported to the other side as Comparison::Unknown",
+                 floor=5, kind="K6 arm table")
+    n = 0
+    for f in ws.fns.values():
+        if f.crate in idioms.TEST_CRATES or f.meta.get("exp"):
+            continue
+        for b in f.bodies:
+            for es in cfg.enum_switches(b, re.compile(re.escape(CHECKED) + "$")):
+                if "Conflict" not in es.targets:
+                    continue
+                reg = idioms.arm_regions(b, es).get("Conflict", set())
+                idx = 0
+                for j in sorted(reg):
+                    for st in b.blocks[j]["s"]:
+                        if st.get("k") == "agg" and COMPARISON.search(st.get("adt") or ""):
+                            n += 1
+                            k = "%s|conflict-verdict#%d" % (b.root, idx)
+                            idx += 1
+                            if st["variant"] == "Unknown":
+                                r.ok(k, cfg.loc(b, j), "Conflict -> Comparison::Unknown", work=len(reg))
+                            else:
+                                r.violation(k, cfg.loc(b, j),
+                                            "a refused patch (CheckedPatch::Conflict) is reported as Comparison::%s: the client only treats Unknown as a conflict, so its sync reports success although its events were not applied" % st["variant"],
+                                            work=len(reg))
+    if n < 5:
+        r.anchor_missing("Comparison verdicts built from CheckedPatch::Conflict (found %d)" % n)
+
+
 def r5_hard_conflict(ctx):
     ws = ctx.ws
     r = ctx.rule("C04-R5", "each hard-conflict handler fetches the full remote log and force-merges the same log kind",
@@ -421,5 +453,6 @@ def run(ctx):
     r2b_field_to_field(ctx)
     r3_one_status(ctx)
     r4_refused_patch_not_dropped(ctx)
+    r4b_conflict_reported_as_unknown(ctx)
     r5_hard_conflict(ctx)
     r6_canonical_log_order(ctx)
